@@ -117,12 +117,13 @@ def run_property(prop, tier, rule_fn, meta):
         # B10: fact-level perturbations — the matchers are exercised on broken copies of the fact base
         from . import perturb
         doc, _ = extract.extract('dev')
-        canaries = []
+        canaries, scope = [], None
         cf = os.path.join(VERIF, 'selftest', 'canaries.json')
         if os.path.isfile(cf):
             with open(cf) as f:
-                canaries = json.load(f).get(prop, [])
-        extra['perturbations'] = perturb.run(doc, rule_fn, prop, canaries)
+                rec = json.load(f).get(prop) or {}
+                canaries, scope = rec.get('canaries', []), rec.get('scope')
+        extra['perturbations'] = perturb.run(doc, rule_fn, prop, canaries, scope=scope)
         extra['perturbations'].pop('detected_all', None)
     return finish(prop, tier, seed, all_results, infos, analysed, stats, meta, t0, crashed, extra)
 
